@@ -593,6 +593,8 @@ class C11(Prop):
         for k, (n, s, e, t) in enumerate(combos):
             text = b'$[' + fmt_bound(s) + b':' + fmt_bound(e) + (b'' if t == 'absent' else b':' + fmt_bound(t)) + b']'
             cases.append(Case('s%d' % k, text, [('a', [('n', float(i)) for i in range(n)])]))
+            # the text is Coq's chain_path of one slice step (C11_slice_from_text): the driver confirms it
+            cases[-1].keyc = [(5, list(fmt_bound(s)), list(fmt_bound(e)), None if t == 'absent' else list(fmt_bound(t)))]
             expect.append(py_slice_ref(n, s, e, 1 if t in ('absent', None) else t))
         idxs = list(range(-9, 10)) + [2 ** 31, -2 ** 31, 2 ** 63 - 1, -2 ** 63, -(2 ** 63 - 1)]
         for n in range(0, 7):
@@ -639,6 +641,9 @@ class C11(Prop):
                 res.violation('broken-correspondence', 'harness:' + hp[:60], hp, c)
                 continue
             gr, mr = g.get('R0', 'P:' + g.get('P', '')), m.get('R0', 'P:' + m.get('P', ''))
+            if c.keyc and m.get('P') == 'ok' and m.get('KP') != '1':
+                res.violation('broken-correspondence', 'harness:chain_path', 'the slice text sent is not Coq chain_path of its step', c)
+                continue
             if want is not None:
                 exp = 'ok:[' + ','.join(core.render_num(float(i)) for i in want) + ']' if want else 'mne'
                 got = gr if gr.startswith('ok:') else cls_of(gr)
